@@ -200,4 +200,22 @@ def step (s : St) (fs : List String) : St × String :=
     | none => (s, "bad-op")
   | _ => (s, "bad-op")
 
+/-- read-fed calls: the argument of the batch call is what a read of the current state returns
+    (`remove_policies(get_filtered_policy(idx, vals))`, `update_policies(get_policy(), …)`); the model has value
+    semantics, so these are plain compositions -/
+def stepR (s : St) (fs : List String) : St × String :=
+  match fs with
+  | ["removeread", k, pi, idx, vals] =>
+    match idx.toNat?, decStrList vals with
+    | some idx, some vals =>
+      match getFiltered (get s.pol k) idx vals with
+      | .error e => (s, answer (showErr e) (get s.pol k) none)
+      | .ok rs => step s ["removemany", k, pi, encRules rs]
+    | _, _ => (s, "bad-op")
+  | ["updateread", k, pt, tag] =>
+    let rs := get s.pol k
+    let ns := rs.map fun r => r.dropLast ++ [r.getLast?.getD "" ++ tag]
+    step s ["updatemany", k, pt, encRules rs, encRules ns]
+  | _ => step s fs
+
 end Casbin.Driver.Policy
